@@ -17,6 +17,8 @@ Verdict = the property evaluated on the IMPLEMENTATION's output:
   viol:write-after-close   a write/CloseWith after a returned `Close()` did not report ErrClosedConn
   viol:write-error-not-closed  a write/flush failed (any error class) but, with the read side still parked, the
                            connection is not closed / the teardown has not run exactly once
+  viol:write-after-close-accepted  (wac) after a close, a write entry point returned nil for the given
+                           (state, protocol, packet kind): the packet was accepted by a closed connection
   viol:not-closed          a close trigger existed but the connection is not reported closed
   viol:panic-escaped       a handler panic left the read loop
 -/
@@ -168,7 +170,41 @@ def par (hs : List Handler) (active : Option Nat) (threads : List (List Api)) (s
     else "ok"
   (out, verdict)
 
+/-- `wac <means> <state> <proto> <kind> <entry>`: the model has no state / protocol / packet-kind dimension because
+    every write entry point decides on `Closed(c)` before anything else (`write_on_closed_reports_closed`, fact
+    `writers_check_closed_first`): the connection is closed by `means`, then the entry point is called. -/
+def wacCase (means entry : String) (impl : String) : String × String :=
+  let closeActs : List Act := match means with
+    | "ck" => [.api (.close true) false] | "cu" => [.api (.close false) false] | "cw" => [.api .closeWith false]
+    | "we" => [.api (.failNet .connReset) false, .api .writeFlush false]
+    | _ => []
+  let script : List Ev := if means = "eof" then [.eof] else []
+  let c0 := mkConn [⟨[], []⟩] (some 0) [closeActs, [.readLoop script]]
+  let fuel := fuelOf c0
+  let c1 := runWhile true (fun st => !st.isEmpty) fuel c0 0
+  let c2 := if means = "eof" then runWhile true (fun st => !st.isEmpty) fuel c1 1 else c1
+  match parseApi entry with
+  | none => ("bad-case", "-")
+  | some a =>
+    let n0 := c2.results.length
+    let c3 := runWhile true (fun st => !st.isEmpty) fuel { c2 with threads := c2.threads.set 0 [.api a true] } 0
+    let out := if !c2.cancelled then "not-closed"
+      else if c3.results.length > n0 then (c3.results.getLast?.map (fun e => showRes e.2.2)).getD "-" else "-"
+    let verdict :=
+      if impl = "hang" then "viol:deadlock" else if impl = "panic" then "viol:panic"
+      else if impl = "not-closed" then "viol:not-closed"
+      else if entry = "fl" then (if impl = "ok" then "viol:write-after-close-accepted" else "ok")
+      else if impl = "ok" then "viol:write-after-close-accepted"
+      else if impl != "closed" then "viol:write-after-close"
+      else "ok"
+    (out, verdict)
+
 def stepCase (c : Case) : String × String :=
+  if c.op = "wac" then
+    match c.args with
+    | [means, _, _, _, entry] => wacCase means entry c.impl
+    | _ => ("bad-case", "-")
+  else
   match c.args with
   | "H" :: rest =>
     let (hsT, rest1) := splitAt "A" rest
